@@ -92,7 +92,7 @@ static void dump(int s, const CT* t){
       const double* k = t->knots[i];
       // the block starts order[i] elements before knots[i]; without a live order array only the raw pointer can be classified
       const void* base = order_ok ? (const void*)(k - t->order[i]) : (const void*)k;
-      std::string sl = slot(base);
+      std::string sl = k ? slot(base) : std::string("N");
       if(sl[0] != 'L') all = false;
       o << (i ? "," : "") << sl;
     }
